@@ -1,4 +1,5 @@
 import Driver.Wire
+import Driver.KServer
 import Sio.Model.Admin
 open Lean (Json)
 namespace Sio.KAdmin
@@ -20,6 +21,18 @@ open Sio.Wire Sio.Admin
     {"op":"resolve","mode":[cp],"read_only":bool,"admin_ns":[cp],"ns":[cp],"ev":J,"args":[J],
      "fn":[[ns,ev]],"cls":[[ns,[method]]]}
         -> what `Sio.Server.resolve` yields for the event in the registry after instrument()
+    {"op":"inst_cfg","cfg":CFG,"admin_ns":[cp],"mode":[cp],"read_only":bool,"auth":AUTH}
+        (CFG as for `siodriver server`; its scripts are the APPLICATION's handlers' outcomes)
+        -> resets the instrumented server model (`Sio.Admin.Instrumented`) to its initial state.
+        When a CONNECT for the admin namespace is about to reach `admin_connect`, that handler's
+        outcome — `connectOutcome` of the gate for AUTH on the packet's payload — is spliced into
+        the connect script at the current position (the application's outcomes keep their order).
+    {"op":"inst_step","input":INPUT}                                            (INPUT as for `siodriver server`)
+        -> one `Instrumented.step` (reports transcribed from admin.py, abstract payloads):
+           {"outs":[OUT] = `appView` of the step's outputs (what the application side observes),
+            "hidden":n = outputs on the admin namespace / contained exceptions, "quiet":bool = `quietStep`,
+            "contained_raised":bool, "admins":[transports with a session on the admin namespace]}
+    {"op":"inst_snapshot"} -> rooms / callbacks / counters of `appState`
 -/
 
 partial def predOfJson (j : Json) : Except String Pred :=
@@ -87,12 +100,87 @@ def resolvedToJson : Server.Resolved → Json
   | .clsNoMethod => Json.mkObj [("clsNoMethod", Json.bool true)]
   | .notHandled => Json.mkObj [("notHandled", Json.bool true)]
 
-def step (_ : Unit) (j : Json) : Except String (Unit × Json) := do
+/-- the instrumented server model between two lines -/
+structure AState where
+  cfg : Server.Cfg := KServer.defaultCfg
+  adminNs : Rooms.Ns := "/admin".toList
+  mode : Str := development
+  ro : Bool := false
+  auth : AuthArg := .val (.bool false)
+  srv : Server.Srv := {}
+
+/-- splice `o` into the connect script at position `k` -/
+def spliceConnect (c : Server.Cfg) (k : Nat) (o : Server.ConnRes) : Server.Cfg :=
+  let old := c.script.onConnect
+  { c with script := { c.script with
+      onConnect := fun n => if n < k then old n else if n = k then o else old (n - 1) } }
+
+/-- the abstract content of the reports (never compared: only its absence from application
+    namespaces is) -/
+def payloads : Payloads :=
+  { stamp := .str "t".toList,
+    socket := fun sid ns => .obj [("id".toList, .str sid), ("nsp".toList, .str ns)],
+    features := .obj [],
+    stats := fun _ _ => none }
+
+def step (st : AState) (j : Json) : Except String (AState × Json) := do
   let op ← (← j.getObjVal? "op").getStr?
-  if op == "pyeq" then
+  if op == "inst_cfg" then
+    let cfg ← KServer.cfgOfJson (← j.getObjVal? "cfg")
+    let a ← strOfJson (← j.getObjVal? "admin_ns")
+    let mode ← strOfJson (← j.getObjVal? "mode")
+    let ro ← (← j.getObjVal? "read_only").getBool?
+    let auth ← authOfJson (← j.getObjVal? "auth")
+    pure ({ cfg := cfg, adminNs := a, mode := mode, ro := ro, auth := auth, srv := {} },
+      Json.mkObj [("ok", Json.bool true)])
+  else if op == "inst_step" then
+    let (inp, table) ← KServer.inputOfJson (← j.getObjVal? "input")
+    let dec : Str → Except Err (Packet × Nat) := fun s =>
+      match table.find? (fun p => p.1 == s) with
+      | some p => p.2
+      | none => .error .other
+    -- an admin CONNECT that will reach its handler: `admin_connect` decides, not the application
+    let cfg : Server.Cfg := match inp with
+      | .frame t v =>
+        match arriving dec st.srv t v with
+        | some p =>
+          if p.type = CONNECT ∧ p.nsp.getD ['/'] = st.adminNs ∧
+              Rooms.sidOf st.srv.rooms st.adminNs t = none ∧ st.srv.environ.contains t then
+            match configure st.auth with
+            | .ok acfg => spliceConnect st.cfg st.srv.nConn (connectOutcome acfg p.data)
+            | .error _ => st.cfg
+          else st.cfg
+        | none => st.cfg
+      | _ => st.cfg
+    let st := { st with cfg := cfg }
+    let ci := Instrumented.cfg st.cfg st.adminNs st.mode st.ro
+    let quiet := Instrumented.quietStep st.cfg st.adminNs st.mode st.ro st.srv inp
+      (Server.step dec ci st.srv inp).2
+    let (srv, outs) := Instrumented.step dec st.cfg st.adminNs st.mode st.ro payloads st.srv inp
+    let app := appView st.adminNs inp outs
+    pure ({ st with srv := srv },
+      Json.mkObj [("outs", Json.arr (app.map KServer.outToJson).toArray),
+                  ("hidden", Json.num (outs.length - app.length)), ("quiet", Json.bool quiet),
+                  -- exceptions contained while this input was processed (not part of `appView`; the
+                  -- harness compares them for application frames all the same)
+                  ("contained_raised", Json.bool (contained inp && outs.any (fun o => match o with
+                    | .raised _ => true | _ => false))),
+                  ("admins", Json.arr ((srv.rooms.filter (fun e => e.ns = st.adminNs ∧ e.room = none)).map
+                    (fun e => strToJson e.eio)).toArray)])
+  else if op == "inst_snapshot" then
+    let s := appState st.adminNs st.srv
+    pure (st, Json.mkObj [
+      ("rooms", Json.arr (s.rooms.map (fun e => Json.arr #[strToJson e.ns, optStrToJson e.room,
+        strToJson e.sid, strToJson e.eio])).toArray),
+      ("cbs", Json.arr (s.cbs.map (fun c => Json.arr #[strToJson c.1, Json.num c.2.1])).toArray),
+      ("environ", Json.arr (s.environ.map strToJson).toArray),
+      ("binbuf", Json.arr (s.binbuf.map (fun e => strToJson e.1)).toArray),
+      ("bg", Json.num s.bg.length),
+      ("adminRooms", Json.num (st.srv.rooms.length - s.rooms.length))])
+  else if op == "pyeq" then
     let a ← jOfJson (← j.getObjVal? "a")
     let b ← jOfJson (← j.getObjVal? "b")
-    pure ((), Json.mkObj [("eq", Json.bool (pyEq a b))])
+    pure (st, Json.mkObj [("eq", Json.bool (pyEq a b))])
   else if op == "admits" then
     let auth ← authOfJson (← j.getObjVal? "auth")
     let payload ← optJOfJson (← j.getObjVal? "payload")
@@ -103,12 +191,12 @@ def step (_ : Unit) (j : Json) : Except String (Unit × Json) := do
     let (cfgJ, admJ, specJ) : Json × Json × Json := match configure auth with
       | .ok c => (Json.str (cfgName c), Json.bool (admits c arg), Json.bool (spec c arg))
       | .error e => (excJson e, Json.null, Json.null)
-    pure ((), Json.mkObj [("configure", cfgJ), ("arg", jToJson arg), ("connect", conn),
+    pure (st, Json.mkObj [("configure", cfgJ), ("arg", jToJson arg), ("connect", conn),
                           ("admits", admJ), ("spec", specJ)])
   else if op == "registry" then
     let mode ← strOfJson (← j.getObjVal? "mode")
     let ro ← (← j.getObjVal? "read_only").getBool?
-    pure ((), Json.mkObj [("registered", Json.arr ((registered mode ro).map strToJson).toArray),
+    pure (st, Json.mkObj [("registered", Json.arr ((registered mode ro).map strToJson).toArray),
                           ("wrapped", Json.arr ((wrapped mode).map Json.str).toArray)])
   else if op == "resolve" then
     let mode ← strOfJson (← j.getObjVal? "mode")
@@ -136,10 +224,10 @@ def step (_ : Unit) (j : Json) : Except String (Unit × Json) := do
         clsMethod := fun n m => clss.any (fun p => p.1 = n ∧ p.2.contains m) }
     let reg := instrumentReg app adminNs mode ro
     match Server.resolve reg ns ev args with
-    | .ok r => pure ((), resolvedToJson r)
-    | .error e => pure ((), excJson e)
+    | .ok r => pure (st, resolvedToJson r)
+    | .error e => pure (st, excJson e)
   else throw s!"unknown op {op}"
 
-def main : IO Unit := lineLoop () step
+def main : IO Unit := lineLoop ({} : AState) step
 
 end Sio.KAdmin
